@@ -2,6 +2,8 @@ import CookModel.Lemmas.CoverEvents
 import CookModel.Lemmas.Roundtrip
 import CookModel.Lemmas.SpansDoc
 import CookModel.Lemmas.ExtLaws
+import CookModel.Lemmas.SpansFront
+import CookModel.Lemmas.Blocks
 /-
   C05 at event level, ALL block shapes: steps with components, text blocks, section lines,
   metadata lines.  Hoare layer of `SpansEv` with the queue predicate `CovQ` ("the content tokens
@@ -701,5 +703,107 @@ theorem runBlock_coverAll (cs : CharSpec) (ext : Ext) (oldStyle : Bool) (blk : L
   refine ⟨key'.1, fun t ht hct => ?_⟩
   obtain ⟨i, hi, hget⟩ := List.mem_iff_getElem.1 ht
   exact key'.2 i hi t (by rw [List.getElem?_eq_getElem hi, hget]) hct
+
+/-- the same from `WF` alone (no surrounding text needed): pad the block's own characters with
+    `baseOff` one-byte characters -/
+theorem utf8Len_replicate_a (n : Nat) : utf8Len (List.replicate n 'a') = n := by
+  induction n with
+  | zero => rfl
+  | succ n ih =>
+    rw [List.replicate_succ, utf8Len_cons, ih]
+    have : 'a'.utf8Size = 1 := by decide
+    omega
+
+theorem wf_wfi {b : List Tok} (hw : WF b) :
+    WFI 0 (List.replicate (baseOff b) 'a' ++ b.flatMap (·.text)) b :=
+  ⟨hw.ne, ⟨hw.run, ⟨List.replicate (baseOff b) 'a', [], by simp, by simp [utf8Len_replicate_a]⟩⟩⟩
+
+theorem runBlock_coverAll_wf (cs : CharSpec) (ext : Ext) (oldStyle : Bool) (blk : List Tok)
+    (evs : Array (Ev α)) (hw : WF blk) :
+    ∀ t ∈ blk, Wordy cs t → CoveredBy (runBlock cs ext oldStyle blk evs none).1 t :=
+  (runBlock_coverAll (K := fun _ => False) cs ext oldStyle blk evs (wf_wfi hw) Boundary.first
+    (fun _ h => h.elim)).2
+
+/-! ### whole inputs -/
+
+theorem foldl_runBlock_coverAll (cs : CharSpec) (ext : Ext) (oldStyle : Bool) (blocks : List (List Tok))
+    (K : Tok → Prop) (acc : Array (Ev α) × Option String) {b : Nat} (hz : Boundary off w 0)
+    (hbl : BlocksIn off w b blocks) (hp : acc.2 = none) (hK : ∀ t, K t → CoveredBy acc.1 t) :
+    (∀ t, K t → CoveredBy
+      (blocks.foldl (fun acc blk => runBlock (α := α) cs ext oldStyle blk acc.1 acc.2) acc).1 t) ∧
+    ∀ blk ∈ blocks, ∀ t ∈ blk, Wordy cs t → CoveredBy
+      (blocks.foldl (fun acc blk => runBlock (α := α) cs ext oldStyle blk acc.1 acc.2) acc).1 t := by
+  induction blocks generalizing K acc b with
+  | nil => exact ⟨hK, fun blk hb => by cases hb⟩
+  | cons blk bs ih =>
+    rw [List.foldl_cons]
+    obtain ⟨hw, hb, hrest⟩ := hbl
+    have h1 := runBlock_no_panic (α := α) cs ext oldStyle blk acc.1 hw.wf
+    have hcov := runBlock_coverAll (K := K) cs ext oldStyle blk acc.1 hw hz hK
+    obtain ⟨k1, k2⟩ := ih (fun t => K t ∨ (t ∈ blk ∧ Wordy cs t))
+      (runBlock (α := α) cs ext oldStyle blk acc.1 acc.2) hrest (by rw [hp]; exact h1)
+      (by
+        rw [hp]
+        rintro t (ht | ⟨ht, hct⟩)
+        · exact hcov.1 t ht
+        · exact hcov.2 t ht hct)
+    refine ⟨fun t ht => k1 t (Or.inl ht), ?_⟩
+    intro blk' hb' t ht hct
+    simp only [List.mem_cons] at hb'
+    rcases hb' with rfl | hb'
+    · exact k1 t (Or.inr ⟨ht, hct⟩)
+    · exact k2 blk' hb' t ht hct
+
+/-- the token stream `PullParser` splits into blocks: the lexed input, or the lexed body after the
+    front matter (at its byte offset) -/
+def bodyToks (cs : CharSpec) (input : List Char) : List Tok :=
+  match parseFrontmatter cs input with
+  | some fm => lexFrom cs fm.cookOffset fm.cookText
+  | none => lex cs input
+
+theorem wordy_in_block {cs : CharSpec} (ts : List Tok) {t : Tok} (ht : t ∈ ts) (hct : Wordy cs t) :
+    ∃ b ∈ allBlocks (ts.length + 1) ts, t ∈ b := by
+  have h := blocks_all_drops (ts.length + 1) ts (by omega)
+  false_or_by_contra
+  rename_i hc
+  have : t ∉ (allBlocks (ts.length + 1) ts).flatten := by
+    intro hm
+    obtain ⟨b, hb, htb⟩ := List.mem_flatten.1 hm
+    exact hc ⟨b, hb, htb⟩
+  have := blocks_drops_mem h t ht this
+  rw [hct.notEmptyTok] at this; cases this
+
+/-- **the whole input**: every content token of the body is covered by an event of the pull parser -/
+theorem pullEvents_coverAll (cs : CharSpec) (ext : Ext) (input : List Char) :
+    ∀ t ∈ bodyToks cs input, Wordy cs t → CoveredBy (pullEvents (α := α) cs ext input).1 t := by
+  intro t ht hct
+  have hz : Boundary 0 input 0 := Boundary.first
+  have hfm := frontMatterOffsetsOK cs input
+  unfold pullEvents
+  unfold bodyToks at ht
+  cases hp : parseFrontmatter cs input with
+  | none =>
+    rw [hp] at ht
+    simp only at ht ⊢
+    obtain ⟨b, hb, htb⟩ := wordy_in_block _ ht hct
+    have hbl : BlocksIn 0 input 0 (allBlocks ((lex cs input).length + 1) (lex cs input)) := by
+      apply allBlocks_blocksIn _ _ 0 _ (Nat.le_refl _)
+      unfold lex
+      exact ⟨⟨lexFrom_chain cs 0 input, lexFrom_escapedOK cs 0 input⟩,
+        ⟨[], [], by simp [lexFrom_tile], by simp [utf8Len]⟩⟩
+    exact (foldl_runBlock_coverAll cs ext true _ (fun _ => False) (#[], none) hz hbl rfl
+      (fun _ h => h.elim)).2 b hb t htb hct
+  | some fm =>
+    rw [hp] at ht
+    simp only at ht ⊢
+    obtain ⟨⟨pre, h1, h2⟩, -⟩ := hfm fm hp
+    obtain ⟨b, hb, htb⟩ := wordy_in_block _ ht hct
+    have hbl : BlocksIn 0 input 0 (allBlocks ((lexFrom cs fm.cookOffset fm.cookText).length + 1)
+        (lexFrom cs fm.cookOffset fm.cookText)) := by
+      apply allBlocks_blocksIn _ _ fm.cookOffset _ (Nat.zero_le _)
+      exact ⟨⟨lexFrom_chain cs _ _, lexFrom_escapedOK cs _ _⟩,
+        ⟨pre, [], by simp [lexFrom_tile, h1], by simp [h2]⟩⟩
+    exact (foldl_runBlock_coverAll cs ext false _ (fun _ => False) (_, none) hz hbl rfl
+      (fun _ h => h.elim)).2 b hb t htb hct
 
 end Cook
